@@ -47,6 +47,8 @@ func zzVal(n int, fill byte) []byte {
 	return v
 }
 
+var zzSetupValSize = 0 // when > 0: fixed value size for the setup (independent of the page size)
+
 var zzSetupKeys = []string{"k00", "k02", "k04", "k06", "k08", "k10", "k12", "k14", "k16"}
 
 // zzSetup builds a concrete base content: bucket "b" with a branch root (several leaves), an overflow
@@ -78,6 +80,9 @@ func zzSetup(db *DB, kind int) {
 			return nil
 		}
 		vs := db.pageSize * 3 / 10
+		if zzSetupValSize > 0 {
+			vs = zzSetupValSize
+		}
 		for i, k := range zzSetupKeys {
 			if err := b.Put([]byte(k), zzVal(vs, byte('a'+i))); err != nil {
 				return err
@@ -378,6 +383,12 @@ func HarnessFault() {
 	}
 	db := zzMustOpen(path, c, "fault")
 	zzSetup(db, zz.Param("setup", 1))
+	if zz.Param("reopenflip", 0) == 1 {
+		// the file was written under one freelist-sync setting and is reopened under the other
+		zz.Assert(db.Close() == nil, "fault/close-before-flip")
+		c.noFLSync = !c.noFLSync
+		db = zzMustOpen(path, c, "fault/reopen-flipped")
+	}
 	var rtx *Tx
 	var rdump []zzKV
 	readers := 0
